@@ -739,9 +739,7 @@ impl<'a, 'src> Resolver<'a, 'src> {
   }
 
   fn catch(&mut self, catch: &mut ast::Catch<'src>) {
-    self.declare_variable(&catch.name);
-    self.define_variable(&catch.name);
-
+    // the class is looked up before the error variable exists
     if let Some(class) = &catch.class {
       self.resolve_variable(class)
     } else {
@@ -752,6 +750,9 @@ impl<'a, 'src> Resolver<'a, 'src> {
         catch.name.end(),
       ));
     }
+
+    self.declare_variable(&catch.name);
+    self.define_variable(&catch.name);
 
     catch.block.symbols = self.scope(|self_| self_.block(&mut catch.block));
   }
